@@ -107,6 +107,8 @@ Definition netloc_of (origin : str) : nl :=
 
 Inductive exn : Type := ValueError | AssertionError.
 
+
+
 (* `if parsed_origin and parsed_origin not in allowed_origins | {host_header}: False` *)
 Definition origin_ok (allow : list str) (host : option str) (n : str) : bool :=
   match lower n with
@@ -129,13 +131,61 @@ Definition check_origin (orc : bool) (allow : list str) (origin : option str)
 (* http/__init__.py: allowed_origins = List(unique, String(transformer = str.lower)) *)
 Definition config_allow (items : list str) : list str := map lower items.
 
+(* The whole path from the text of the config value to the set the handlers hold
+   (mopidy.config.types):
+     List.deserialize:   raw = decode(text); split on newlines if raw contains one, else on
+                         commas (re.split(r"\s*\n\s*") / r"\s*,\s*" followed by .strip() is
+                         split + strip); empty entries dropped;
+     String.deserialize: decode AGAIN, strip, "must be set" (ValueError) if that leaves
+                         nothing, then the transformer str.lower;
+     frozenset of the results.
+   decode undoes the escapes backslash-backslash, backslash-n, backslash-t in one
+   left-to-right pass. *)
+Fixpoint cfg_decode (s : str) : str :=
+  match s with
+  | [] => []
+  | c :: t =>
+      if c =? 92 then
+        match t with
+        | d :: t' =>
+            if d =? 92 then 92 :: cfg_decode t'
+            else if d =? 110 then 10 :: cfg_decode t'
+            else if d =? 116 then 9 :: cfg_decode t'
+            else c :: cfg_decode t
+        | [] => [c]
+        end
+      else c :: cfg_decode t
+  end.
+
+Definition nonempty (s : str) : bool := match s with [] => false | _ => true end.
+
+Definition cfg_items (raw : str) : list str :=
+  filter nonempty (map strip (if has 10 raw then split1 10 raw else split1 44 raw)).
+
+Fixpoint cfg_values (items : list str) : res exn (list str) :=
+  match items with
+  | [] => Ok []
+  | it :: t =>
+      match strip (cfg_decode it) with
+      | [] => Raise ValueError                       (* "must be set." *)
+      | r => rbind (cfg_values t) (fun vs => Ok (lower r :: vs))
+      end
+  end.
+
+Definition parse_allowed_origins (text : str) : res exn (list str) :=
+  cfg_values (cfg_items (cfg_decode text)).
+
 (* ---------------------------------------------------------------- handlers *)
 
-Inductive kind : Type := Post | Options | WsHandshake.
+Inductive kind : Type :=
+| Post | Options | WsHandshake
+| Head            (* HEAD /rpc: JsonRpcHandler.head *)
+| OtherMethod.    (* GET / PUT / DELETE / PATCH on /rpc: not implemented -> tornado's 405 *)
 
 Definition kind_eqb (a b : kind) : bool :=
   match a, b with
-  | Post, Post | Options, Options | WsHandshake, WsHandshake => true
+  | Post, Post | Options, Options | WsHandshake, WsHandshake | Head, Head
+  | OtherMethod, OtherMethod => true
   | _, _ => false
   end.
 
@@ -154,8 +204,12 @@ Record request : Type := mkReq {
 Record response : Type := mkResp {
   status : Z;
   acao : option str;           (* Access-Control-Allow-Origin *)
-  acah : bool;                 (* Access-Control-Allow-Headers present *)
-  reaches_core : bool          (* the JSON-RPC wrapper is (post) / will be (ws) invoked *)
+  acah : bool;                 (* Access-Control-Allow-Headers: Content-Type present *)
+  reaches_core : bool;         (* the JSON-RPC wrapper is (post) / will be (ws) invoked *)
+  extra : bool;                (* set_extra_headers ran and its headers are sent: Cache-Control:
+                                  no-cache, X-Mopidy-Version, Accept: application/json,
+                                  Content-Type: application/json; utf-8 *)
+  registered : bool            (* the handler joined WebSocketHandler.clients (open ran) *)
 }.
 
 Definition app_json : str :=
@@ -167,13 +221,13 @@ Definition media_type (ctype : option str) : str :=
 
 Definition is_some {A} (o : option A) : bool := match o with Some _ => true | None => false end.
 
-Definition refuse (code : Z) : response := mkResp code None false false.
+Definition refuse (code : Z) : response := mkResp code None false false false false.
 
 Definition handle_post (r : request) : response :=
   if r_csrf r then
     if negb (str_eqb (media_type (r_ctype r)) app_json) then refuse 415
-    else mkResp 200 (r_origin r) (is_some (r_origin r)) (r_body r)
-  else mkResp 200 None false (r_body r).
+    else mkResp 200 (r_origin r) (is_some (r_origin r)) (r_body r) (r_body r) false
+  else mkResp 200 None false (r_body r) (r_body r) false.
 
 Definition handle_options (r : request) : response :=
   if r_csrf r then
@@ -183,16 +237,16 @@ Definition handle_options (r : request) : response :=
     | Ok true =>
         match r_origin r with
         | None | Some [] => refuse 500            (* `assert origin` *)
-        | Some o => mkResp 204 (Some o) true false
+        | Some o => mkResp 204 (Some o) true false false false
         end
     end
-  else mkResp 204 None false false.
+  else mkResp 204 None false false false false.
 
 (* tornado: Origin if present, else Sec-Websocket-Origin; no origin => no check *)
 Definition effective_ws_origin (r : request) : option str :=
   match r_origin r with Some o => Some o | None => r_ws_origin r end.
 
-Definition ws_accept : response := mkResp 101 None false true.
+Definition ws_accept : response := mkResp 101 None false true false true.
 
 Definition handle_ws (r : request) : response :=
   match effective_ws_origin r with
@@ -211,11 +265,14 @@ Definition handle (r : request) : response :=
   | Post => handle_post r
   | Options => handle_options r
   | WsHandshake => handle_ws r
+  | Head => mkResp 200 None false false true false
+  | OtherMethod => refuse 405
   end.
 
 Definition resp_eqb (a b : response) : bool :=
   (status a =? status b) && opt_eqb str_eqb (acao a) (acao b)
-  && Bool.eqb (acah a) (acah b) && Bool.eqb (reaches_core a) (reaches_core b).
+  && Bool.eqb (acah a) (acah b) && Bool.eqb (reaches_core a) (reaches_core b)
+  && Bool.eqb (extra a) (extra b) && Bool.eqb (registered a) (registered b).
 
 (* ------------------------------------------------------------------------
    The property's predicates as boolean functions of (request, response).  The same
@@ -261,7 +318,14 @@ Definition t3_ws_sound (r : request) (p : response) : bool :=
          end).
 
 Definition t4_refused_inert (r : request) (p : response) : bool :=
-  implb (is_refused p) (negb (reaches_core p) && negb (cors_granted p)).
+  implb (is_refused p)
+        (negb (reaches_core p) && negb (cors_granted p) && negb (registered p) && negb (extra p)).
+
+(* the state a request can change: calls into the core, members of the WebSocket client set *)
+Record server_state : Type := mkSrv { core_calls : Z; ws_clients : Z }.
+Definition apply_response (st : server_state) (p : response) : server_state :=
+  mkSrv (core_calls st + (if reaches_core p then 1 else 0))
+        (ws_clients st + (if registered p then 1 else 0)).
 
 Definition t5_off_accepts_all (r : request) (p : response) : bool :=
   implb (negb (r_csrf r))
@@ -269,6 +333,8 @@ Definition t5_off_accepts_all (r : request) (p : response) : bool :=
          | Post => (status p =? 200) && Bool.eqb (reaches_core p) (r_body r)
          | Options => status p =? 204
          | WsHandshake => (status p =? 101) && reaches_core p
+         | Head => status p =? 200
+         | OtherMethod => status p =? 405
          end).
 
 Definition all_monitors (r : request) (p : response) : list bool :=
